@@ -38,7 +38,7 @@ MUST_SEE = [
     "asobj_reused", "digest1_histories", "dead_weakrefs_checked", "replace_on_stale", "id_determinism_checks", "replace_fail_after_registration",
 ]
 CONFIG = {
-    "quick": {"shards": 16, "histories": 40, "ops": 35, "watchdog_s": 300},
+    "quick": {"shards": 16, "histories": 100, "ops": 35, "watchdog_s": 300},
     "thorough": {"shards": 32, "histories": 500, "ops": 60, "watchdog_s": 3000},
 }
 
@@ -147,15 +147,17 @@ class History:
         return root
 
     def determinism(self, n, had_twin: bool):
+        """A node created while no registered node has the same class, origin, comparable content and direct
+        children gets the same id every time. Judged only at the default digest size (at sizes 1 and 2 other
+        contents collide, so the id legitimately depends on what else is registered) and only without twin."""
+        if self.digest < 8 or had_twin:
+            return
         k = hashlib.blake2b(repr(full_key(self.U, n)).encode("utf-8", "surrogatepass"), digest_size=10).hexdigest()
-        base = n.id.split("_")[0]
         m = self.ctx.extra.setdefault("idmap", {}).setdefault(str(self.digest), {})
-        prev = m.setdefault(k, base)
+        prev = m.setdefault(k, n.id)
         self.ctx.count("id_determinism_checks")
-        if prev != base:
-            self.bad("id-nondeterministic", "same class/origin/content/children got a different id", id=n.id, prev=prev)
-        if self.digest >= 8 and not had_twin and n.id != base:
-            self.bad("id-nondeterministic", "fresh node without a registered twin got a collision suffix", id=n.id)
+        if prev != n.id:
+            self.bad("id-nondeterministic", "same class/origin/content/children (no registered twin) got a different id", id=n.id, prev=prev)
 
     def run(self, nops):
         ctx, U, rng = self.ctx, self.U, self.rng
@@ -212,7 +214,7 @@ class History:
             for n in subtree_objects(U, root):
                 fk = full_key(U, n)
                 twins = [m for m in self.all_nodes() if m is not n and self.model.is_registered(m) and full_key(U, m) == fk]
-                self.determinism(n, bool(twins) or n.id.count("_") > 0 and self.digest < 8)
+                self.determinism(n, bool(twins))
         elif r < 0.27 and len(nodes) >= 2:
             # parent over existing nodes
             kids = rng.sample(nodes, min(len(nodes), rng.randint(1, 3)))
